@@ -143,6 +143,7 @@ class Sched:
         self.where = [None] * nthreads  # per thread: names of the cacheutils frames on its stack at its pending
         #                                 instruction (innermost first); lets a chooser pre-empt INSIDE a given method
         self.track_stack = False
+        self.frozen = False             # step limit hit: the unfinished workers stay parked for good (see dispatch)
         self.live = False               # True while the workers of this run exist (user_point() is a no-op otherwise)
         self.in_user = [False] * nthreads
         self.user_points = 0            # scheduling points taken inside user-level __hash__ / __eq__ callbacks
@@ -173,6 +174,10 @@ class Sched:
             self._wake_one(me)
 
     def dispatch(self, tid, finished=False):
+        if self.frozen:
+            if finished:
+                return
+            threading.Event().wait()        # (not reached: nobody wakes a worker of a frozen run)
         if self.abort:
             if finished:
                 self._wake_one(tid)
@@ -187,11 +192,21 @@ class Sched:
                 return
             raise StepLimit()
         if self.step >= self.max_steps:
+            # a run that does not end (e.g. an unlocked walk over a half-spliced ring that never comes back to the
+            # anchor).  The workers are NOT unwound: raising out of a trace function inside the endless loop makes
+            # CPython 3.12.1 switch tracing off under a live instrumented frame and crash.  Every unfinished worker
+            # stays parked where it is for good (daemon threads, still tracing - so nothing is ever de-instrumented);
+            # the main thread is told that the run is over.
             self.step_limit = True
-            self._abort_all(tid, running=not finished)
+            self.abort = True
+            self.frozen = True
+            for i in range(self.n):
+                if not self.done[i] and i != tid:
+                    self.main.release()
             if finished:
                 return
-            raise StepLimit()
+            self.main.release()
+            threading.Event().wait()        # this worker parks here for the rest of the process
         nxt = self.choose(self.step, runnable)
         if nxt not in runnable:
             nxt = runnable[0]
@@ -302,9 +317,10 @@ def run(cu, programs, choose, make_cache, max_steps=200000, state_funcs=None):
             s._abort_all(None)
             for _ in range(n):
                 s.main.acquire(timeout=5)
-        for t in ths:
-            t.join(timeout=5)
-        stuck = stuck or any(t.is_alive() for t in ths)
+        if not s.frozen:
+            for t in ths:
+                t.join(timeout=5)
+            stuck = stuck or any(t.is_alive() for t in ths)
     finally:
         s.live = False
         cu.RLock = old_rlock
